@@ -25,7 +25,8 @@ LABEL = ('partial: user handler code is represented by the program alphabet {rec
          'send_message, send_trailing_metadata(status,msg), cancel, sleep} ending in return / raise GRPCError / '
          'raise Exception / raise BaseException / wait, with an honour-or-swallow cancellation policy; theorems are '
          'over programs of every length; D4 (BaseException / cancelled by Server.close -> no terminal frame) is a '
-         'recorded finding (exactly_one_terminal is proved as _partial + _refuted)')
+         'recorded finding (exactly_one_terminal is proved as _partial + _refuted); D42 (GRPCError(OK) on a unary reply '
+         'without a message) is repaired and proved at full strength')
 TRUSTED = ['modelled, not verified: hyper-h2 stream life-cycle (open / half-closed / closed; a refused send on a '
            'half-closed(local) stream closes it), asyncio task cancellation at suspension points, '
            'Wrapper/DeadlineWrapper error replacement, Buffer.read on the buffered request body',
@@ -235,6 +236,8 @@ def oracle(case, obs, can):
         sig = {'kind': kind, 'end': ec}
         sig.update(kw)
         bad.append((what, sig))
+    if obs['hang'] and obs['end'] is not None:
+        fail('stuck', 'the handler coroutine ended (%s) but request_handler never finished' % obs['end'])
     if obs['violations']:
         fail('h2-violation', 'the validating peer rejected what the server sent: %s' % obs['violations'][:1])
     cls, info = classify_request([tuple(h) for h in case['headers']])
@@ -312,7 +315,9 @@ def oracle(case, obs, can):
     elif end in ('fin:ret', 'swallow:close:ret'):
         want = ('0', None) if (streaming or ndata == 1) else ('non-ok', None)
     elif raised is not None:
-        want = raised
+        # GRPCError(Status.OK) can not be honoured on a unary reply without its message (D42, repaired): any
+        # non-OK status is truthful there; otherwise exactly the raised (status, message)
+        want = ('non-ok', None) if (raised[0] == '0' and not streaming and ndata == 0) else raised
     elif end in ('fin:exc', 'swallow:close:exc'):
         want = ('2', '*')
     elif 'deadline' in end:
@@ -474,6 +479,8 @@ def build_cases(ctx, res):
     res.extra['exhaustive_depth'] = depth
     for ops in all_programs(depth):
         for card in CARDS:
+            if len(ops) > 4 and card in ('US', 'SU'):
+                continue                # depth 5 (thorough): the two pure cardinalities only
             for fin in FINS:
                 if fin[0] == 'wait':
                     continue            # without an event a waiting handler hangs: covered in 3.
@@ -527,6 +534,11 @@ def impl_batch(cases):
 
 def check_cases(ctx, res, cases, tags=None):
     tags = tags or ['replay'] * len(cases)
+    CH = 40000
+    if len(cases) > CH:                 # bounded memory in the thorough tier
+        for a in range(0, len(cases), CH):
+            check_cases(ctx, res, cases[a:a + CH], tags[a:a + CH])
+        return
     model = None
     if ctx.model_ok:
         model = ctx.model([model_line(c) for c in cases])
@@ -573,7 +585,8 @@ def run(ctx):
     res = Result()
     res.rule = ('(1) a covering set of ~90 request header lists (every check of request_handler failing alone and in '
                 'pairs, duplicates, timeout and -bin spellings) x END_STREAM timing x 3 programs; (2) ALL handler '
-                'programs over the 7-letter alphabet {R,I,M,T(OK),T(NOT_FOUND),C,S} up to the depth bound x 4 '
+                'programs over the 7-letter alphabet {R,I,M,T(OK),T(NOT_FOUND),C,S} up to the depth bound (4 quick; thorough 5 '
+                'for UU and SS, 4 for US and SU) x 4 '
                 'cardinalities x {return, raise GRPCError(ABORTED), raise GRPCError(OK), raise Exception, raise BaseException}; (3) short programs x '
                 '9 request bodies (none/partial/complete/excess x END_STREAM) x {no event, client RST, Server.close} x '
                 '{honour, swallow+return, swallow+BaseException, swallow+GRPCError} x {no deadline, deadline}; '
